@@ -217,8 +217,10 @@ class SmtLibSolver(Solver): # TODO this class is defined twice in pysmt. Here an
     def print_model(self, name_filter=None):
         if name_filter is not None:
             raise NotImplementedError
-        for v in self.declared_vars:
-            print("%s = %s" % (v, self.get_value(v)))
+        for frame in self.declared_vars:
+            for v in frame:
+                if v.is_term():
+                    print("%s = %s" % (v, self.get_value(v)))
 
     def get_model(self):
         assignment = {}
